@@ -68,6 +68,24 @@ class AdversarialChooser:
         self.stats[f"rng-adversarial-{pol}"] += 1
         return idx
 
+    def random(self, size=None, dtype=np.float64, out=None):
+        """Uniform numbers in [0, 1) the unlucky way: exactly 0.0 and the largest double below 1 are legal draws."""
+        hi = float(np.nextafter(1.0, 0.0))
+        k = 1 if size is None else int(np.prod(size))
+        pol = self.policy
+        if pol in ("first", "least"):
+            vals = [0.0] * k
+        elif pol in ("last", "most"):
+            vals = [hi] * k
+        elif pol in ("alternate", "ascending"):
+            vals = [(0.0, hi)[i % 2] for i in range(k)]
+        else:
+            vals = [self.r.choice([0.0, hi, self.r.random()]) for _ in range(k)]
+        self.stats[f"rng-adversarial-random-{pol}"] += 1
+        if size is None:
+            return vals[0]
+        return np.array(vals, dtype=float).reshape(size)
+
     def choice(self, a, size=None, replace=True, p=None, axis=0, shuffle=True):
         n, pp = _validate(a, size, p)
         idx = self._indices(n, pp, size)
